@@ -53,7 +53,8 @@ def replay_and_validate(ctx, hs, tag):
     for d in impl["drift"]:
         h = events[d["l"] - 1]["h"]
         first_drift.setdefault(h, d["l"])
-    kept = [e for i, e in enumerate(events) if e["h"] not in first_drift or (i + 1) <= first_drift[e["h"]]]
+    # (walks are driven by the real tree, not by the model's indices: all their events are judged)
+    kept = [e for i, e in enumerate(events) if e.get("walk") or e["h"] not in first_drift or (i + 1) <= first_drift[e["h"]]]
     mpath = os.path.join(ctx.scratch, "mon-%s.ndjson" % tag)
     vf.write_ndjson(mpath, kept)
     mon = ctx.validate("C11_Mon", "C11_mon.cfg", mpath, name="mon-" + tag)
@@ -105,6 +106,23 @@ def run(ctx):
     ctx.log("%d distinct dedupe/completion transitions dumped by TLC (%d states)" % (len(tests), rd.distinct))
     nev0, nkept0, impl0, mon0 = replay_and_validate(ctx, tests, "trans")
     ctx.log("transition tests: %d events; drift=%d, monitor violations=%d" % (nev0, len(impl0["drift"]), len(mon0["viols"])))
+    # 2a'. ALL consistent trees of up to 4 nodes (every URL / status assignment), reachable through the stages or not
+    ra = ctx.tlc("ItemTreeAll", "C11_all.cfg" if quick else "C11_all_t.cfg", workers=1, timeout=3000, name="all")
+    alltests, seen = [], set()
+    for line in ra.out.splitlines():
+        for tag, op in (("VF_DD", "dedupe-any"), ("VF_CAC", "cac-any")):
+            if line.startswith('<<"%s"' % tag):
+                tj = tlaval.parse(line.strip())[1]
+                if (op, tj) not in seen:
+                    seen.add((op, tj))
+                    alltests.append('[{"op":"build","tree":%s},{"op":"%s"}]' % (tj, op))
+    if not alltests:
+        raise vf.Inconclusive("no trees enumerated by TLC")
+    ctx.log("%d tests on all consistent trees of the small scope (%d lists enumerated)" % (len(alltests), ra.distinct))
+    nall = 0
+    for c0 in range(0, len(alltests), 20000):
+        a, b, i2, m2 = replay_and_validate(ctx, alltests[c0:c0 + 20000], "all%d" % (c0 // 20000))
+        nall += a
     # 2b/3. behaviours -> real code -> TLC
     num, depth = (6000, 400) if quick else (60000, 600)
     hs = histories(ctx, num, depth, "C11_sim.cfg" if quick else "C11_sim_big.cfg", "sim")
